@@ -54,3 +54,7 @@ add("C19", "property-based testing (Hypothesis) over operation histories (save/r
     "Generated histories of 1-6 operations over graphs of the C08 family: after every save+restore cycle the restored object is compared with the in-memory original (node set, edge set, per-edge weight/type/CPEdge, node_list, event->node maps, edge_to_event_map, critical path nodes/edges/events, breakdown as a multiset of rows); recomputation and what-if re-weighting are applied to both and the path weights compared.",
     "The in-memory original is the model; path ties may be broken differently after a restore, so recomputed paths are compared by weight.",
     "DESIGN.md §5 C19")
+add("C20", "property-based testing (Hypothesis): round-trip / prefix-preservation oracles over the written files",
+    "Generated-input search over three writers: the trace with counters (flags, suffix, ranks), the critical-path overlay (all option combinations incl. the zero-weight-launch-edge switch) and write_trace/read_trace/update_trace_rank/create_rank_to_trace_dict in both file formats with ranks up to 10^6. The first n output events must equal the source list element-wise (overlay: modulo the 'critical' marker), only counters/flow events may be appended, markers sit exactly on the critical events, one s+f pair per drawn edge on the pid/tid of the edge's two events, rank update changes only distributedInfo.rank, discovery returns the metadata rank.",
+    "Output files are read by sniffing the gzip magic (the writers gzip regardless of the name); complete events carry an args object; generated event args contain no key named rank.",
+    "DESIGN.md §5 C20")
